@@ -25,7 +25,7 @@ import (
 	"github.com/flamego/flamego/verifharness/internal/rt"
 )
 
-const rule = "case = environment in {development, production, test} x Recovery placed as application middleware, group handler or first route handler x 0..2 recording middleware before it x 1..3 later handlers, each of the shape func(Context), func(ResponseWriter, *Request) or http.HandlerFunc and a program over {write a status, write body bytes, Next(), cancel the request context, panic(value) - from ordinary code or from a function whose source file cannot be read -, require an unresolvable dependency, write with a registered before-function that panics, WriteHeader with a code the underlying writer rejects by panicking, a Hijack that fails} with panic values of kinds {string, error, runtime error, struct, http.ErrAbortHandler, custom error, integer, typed-nil error, slice, map, struct with a slice field}; GET or HEAD; the environment may change between construction and requests x a sequence of 1..4 requests mixing the panicking route and a healthy one. " +
+const rule = "case = environment in {development, production, test} x Recovery placed as application middleware, group handler or first route handler x 0..2 recording middleware before it x optionally a handler that re-maps http.ResponseWriter to a plain embedding wrapper x 1..3 later handlers, each of the shape func(Context), func(ResponseWriter, *Request) or http.HandlerFunc and a program over {write a status, write body bytes, Next(), cancel the request context, panic(value) - from ordinary code or from a function whose source file cannot be read -, require an unresolvable dependency, write with a registered before-function that panics, WriteHeader with a code the underlying writer rejects by panicking, a Hijack that fails} with panic values of kinds {string, error, runtime error, struct, http.ErrAbortHandler, custom error, integer, typed-nil error, slice, map, struct with a slice field}; GET or HEAD; the environment may change between construction and requests x a sequence of 1..4 requests mixing the panicking route and a healthy one. " +
 	"Oracle: nothing escapes ServeHTTP and every request returns (60 s watchdog); an interpreter of the handler programs says what had been sent before the panic: status = that status, or 500 if none; body = the earlier bytes followed by a tail that (development) shows the panic value, (otherwise) shows neither the value nor stack frames; every recording middleware logged its code after Next(); a healthy request answers exactly like on a fresh instance. " +
 	"non-trivial = a case with a panic after a write, or inside a nested Next(), or with a non-string value, or with a failed dependency resolution, or followed by a healthy request; distinct by case text"
 
@@ -62,6 +62,19 @@ type Case struct {
 	After      []H      `json:"after"`
 	Reqs       []string `json:"requests"`         // "p" | "ok"
 	Method     string   `json:"method,omitempty"` // GET (default) or HEAD; routes answer both
+	// WrapWriter: a handler right behind Recovery re-maps http.ResponseWriter to
+	// a plain wrapper struct (which has none of the optional writer interfaces).
+	WrapWriter bool `json:"wrap_writer,omitempty"`
+}
+
+// plainWriter is the usual embedding wrapper: http.ResponseWriter and nothing else.
+type plainWriter struct{ http.ResponseWriter }
+
+func flamegoWriter(w http.ResponseWriter) flamego.ResponseWriter {
+	if pw, ok := w.(plainWriter); ok {
+		w = pw.ResponseWriter
+	}
+	return w.(flamego.ResponseWriter)
 }
 
 type customErr struct{ code int }
@@ -279,7 +292,7 @@ func build(c Case) *app {
 				case op == "b":
 					_, _ = w.Write([]byte(fmt.Sprintf("h%d;", i)))
 				case op == "bfw":
-					w.(flamego.ResponseWriter).Before(func(flamego.ResponseWriter) { panic("before-boom") })
+					flamegoWriter(w).Before(func(flamego.ResponseWriter) { panic("before-boom") })
 					_, _ = w.Write([]byte(fmt.Sprintf("h%d;", i)))
 				case op == "xc":
 					w.WriteHeader(1000)
@@ -317,6 +330,11 @@ func build(c Case) *app {
 		} else {
 			hs = append(hs, body)
 		}
+	}
+	if c.WrapWriter {
+		hs = append([]flamego.Handler{func(ctx flamego.Context) {
+			ctx.MapTo(plainWriter{ctx.ResponseWriter()}, (*http.ResponseWriter)(nil))
+		}}, hs...)
 	}
 	ok := func(ctx flamego.Context) string { return "ok" }
 	switch c.RecoveryAt {
@@ -561,6 +579,7 @@ func genCase(t *rapid.T) Case {
 		RecoveryAt: []string{"use", "group", "route"}[rapid.IntRange(0, 2).Draw(t, "at")],
 	}
 	c.Method = []string{"GET", "GET", "GET", "HEAD"}[rapid.IntRange(0, 3).Draw(t, "method")]
+	c.WrapWriter = rapid.IntRange(0, 4).Draw(t, "wrapwriter") == 0
 	if rapid.IntRange(0, 2).Draw(t, "envswitch") == 0 {
 		c.EnvAtBuild = []string{"development", "production", "test"}[rapid.IntRange(0, 2).Draw(t, "envbuild")]
 	}
